@@ -317,7 +317,7 @@ def spec_to_mpc_text(spec, phase_only=None, base=100.0):
         gs = sum(d['g'] * (100.0 / d.get('Sn', 100.0)) ** -1 * 1.0 for d in spec['Shunt'] if d['bus'] == b['idx']) * 0
         ty = 3 if b['idx'] in slack else (2 if b['idx'] in pvb else 1)
         # shunts: expressed directly in MW / Mvar at 1 pu (MATPOWER convention)
-        sh = [d for d in spec['Shunt'] if d['bus'] == b['idx']]
+        sh = [d for d in spec['Shunt'] if d['bus'] == b['idx'] and d.get('u', 1)]      # MATPOWER has no shunt status
         gs = sum(d['g_mw'] for d in sh) * base / 100.0 if sh and 'g_mw' in sh[0] else 0.0
         bs = sum(d['b_mvar'] for d in sh) * base / 100.0 if sh and 'b_mvar' in sh[0] else 0.0
         lines.append(f'  {b["idx"]} {ty} {pd:.10g} {qd:.10g} {gs:.10g} {bs:.10g} 1 1.0 0.0 {b["Vn"]} 1 1.6 0.4;')
@@ -393,10 +393,10 @@ class Matpower(Part):
         spec = spec_of(case)
         for ln in spec['Line']:
             ln.pop('g', None)          # MATPOWER has no branch conductance field
-        for sh in spec['Shunt']:
+        for k_sh, sh in enumerate(spec['Shunt']):
             # express the shunt in MATPOWER units and keep the ANDES data on the system base
-            sh['g_mw'], sh['b_mvar'] = 1.5, 6.0
-            sh['g'], sh['b'], sh['Sn'] = 0.015, 0.06, 100.0
+            sh['g_mw'], sh['b_mvar'] = 1.5 + 0.5 * k_sh, 6.0 + 2.0 * k_sh
+            sh['g'], sh['b'], sh['Sn'] = sh['g_mw'] / 100.0, sh['b_mvar'] / 100.0, 100.0
             sh['Vn'] = [b['Vn'] for b in spec['Bus'] if b['idx'] == sh['bus']][0]
         for g in spec['PV']:
             g['Sn'] = 100.0
@@ -540,8 +540,9 @@ def spec_to_raw(spec, variant, xf3=None, gens=None):
         ref['load'].append(dict(bus=d['bus'], p0=(pl + ip + yp) / base, q0=(ql + iq - yq) / base, u=st))
     L.append('0 / END OF LOAD DATA, BEGIN FIXED SHUNT DATA')
     for k, d in enumerate(spec['Shunt']):
-        L.append(f"{d['bus']},'{k + 1}',1,{1.5:.6f},{6.0:.6f}")
-        ref['shunt'].append(dict(bus=d['bus'], g=1.5 / base, b=6.0 / base, u=1))
+        st = int(d.get('u', 1))
+        L.append(f"{d['bus']},'{k + 1}',{st},{1.5 + 0.25 * k:.6f},{6.0 + k:.6f}")
+        ref['shunt'].append(dict(bus=d['bus'], g=(1.5 + 0.25 * k) / base, b=(6.0 + k) / base, u=st))
     L.append('0 / END OF FIXED SHUNT DATA, BEGIN GENERATOR DATA')
     for d in (gens if gens is not None else [dict(g, id='1', mbase=150.0) for g in spec['Slack'] + spec['PV']]):
         pg = d.get('p0', 0.0) * base
@@ -671,8 +672,8 @@ class Psse(Part):
         exp = sorted((d['bus'], round(d['p0'], 8), round(d['q0'], 8), d['u']) for d in ref['load'])
         if loads != exp:
             bad('raw:load' + (':zip' if variant.get('zip') else ''), f'loads {loads} vs {exp}')
-        sh = sorted((ss.Shunt.bus.v[k], round(ss.Shunt.g.v[k], 8), round(ss.Shunt.b.v[k], 8)) for k in range(ss.Shunt.n))
-        exps = sorted((d['bus'], round(d['g'], 8), round(d['b'], 8)) for d in ref['shunt'])
+        sh = sorted((ss.Shunt.bus.v[k], round(ss.Shunt.g.v[k], 8), round(ss.Shunt.b.v[k], 8), int(ss.Shunt.u.v[k])) for k in range(ss.Shunt.n))
+        exps = sorted((d['bus'], round(d['g'], 8), round(d['b'], 8), d['u']) for d in ref['shunt'])
         if sh != exps:
             bad('raw:fixed_shunt', f'shunts {sh} vs {exps}')
         gens = sorted((m.bus.v[k], round(m.p0.v[k], 8), round(m.v0.v[k], 8), int(m.u.v[k]), m is ss.Slack) for m in (ss.Slack, ss.PV) for k in range(m.n))
